@@ -167,7 +167,8 @@ def st_stage(draw, op, node, m, ctx, allowed, budget):
     if op in ('filter_lazy', 'filter_eager'):
         mm = draw(st.integers(2, 3))
         return {'op': 'filter', 'm': mm, 'r': draw(st.integers(0, mm - 1)), 'lazy': op == 'filter_lazy',
-                'int': draw(st.sampled_from([False, True, 'seq'])), 'in': node}
+                'int': draw(st.sampled_from([False, True, 'seq'])),
+                'lazy_as': draw(st.sampled_from([None, None, 'int', 'np'])), 'in': node}
     if op == 'slice':
         return {'op': 'slice', 'form': draw(st_slice_form(n, m)), 'in': node}
     if op == 'shuffle_once':
